@@ -21,7 +21,7 @@ theorem mlpc_check_iff (g h : F) (t z dz evals : List F) (dc dv : F) (n' : Nat)
   MLPC.check_honest_iff g h t z dz evals dc dv n' hz hdz he
 
 /-- `proofSpec` is what the prover returns (so the theorems above speak about `open`'s output) -/
-theorem mlpc_open_is_proofSpec (g h : F) (t evals z : List F) (hz : t.length ≤ z.length)
+theorem mlpc_open_is_proofSpec (g h : F) (t evals z : List F) (hz : z.length = t.length)
     (he : evals.length = 2 ^ t.length) :
     MLPC.open (MLPC.wfCK g h t) t.length evals z = .ok (MLPC.proofSpec h t z evals) :=
   MLPC.open_wf g h t evals z hz he
